@@ -738,7 +738,7 @@ def main():
         stored = {v["key"] for v in h.violations}
         h.note(f"{len(h.viol_keys)} distinct violation keys, only {len(h.violations)} stored; the others: " + " | ".join(sorted(h.viol_keys - stored)))
     sys.exit(h.finish(exhaustive=True, bound=f"type grammar depth <= {D} ({len(alltypes)} types; all of them in the flat shape, {'depth <= 1' if thorough else 'leaves + 37 representative depth-1 types'} in the other "
-                      f"{len(SHAPES) - 1} shapes), value sets of gen_d (incl. {len(TRICKY)} look-alike strings), formats yaml/json/json_indented, parser modes yaml/json, print_config flags {'',skip_default,comments,skip_null*,comments+skip_default} at top level and inside subcommands, save single/multi-file; "
+                      f"{len(SHAPES) - 1} shapes), value sets of gen_d (incl. {len(TRICKY)} look-alike strings), formats yaml/json/json_indented, parser modes yaml/json, print_config flags ('', skip_default, comments, skip_null*, comments+skip_default) at top level and inside subcommands, save single/multi-file; "
                       "focused cases: skip_default over all (default, value) pairs of dicts with keys a,b / values 1,2; ==-confusable defaults; 4 subcommand layouts; nested dataclasses; subclass specs "
                       "(5 default styles, containers, unions, callables); nested config files saved multi-file"))
 
